@@ -65,7 +65,7 @@ def table_rule(chk, prog):
             if isinstance(test, ast.Compare) and "date_dec" in ast.unparse(test.left) and isinstance(test.comparators[0], ast.Constant):
                 tests.append((test, self2.vn(test.left, st)))
             return super().split(test, st)
-    _T(f, prog).analyse()
+    _T(f, prog, inline_private=True).analyse()
 
     def members(vn, depth=0):
         if vn in _PHI and depth < 4:
@@ -86,7 +86,7 @@ def table_rule(chk, prog):
             chk.record("TABLE.select", site, "the decimal year compared with the epoch boundary is not rounded or truncated first")
     # DATE-FORM: the decimal year the thresholds are compared with is, on every path, the caller's number itself or year + day-of-year/365 of the date object
     import re as _re
-    exits = [st_ for _, st_ in _T(f, prog).analyse().returns if st_ is not None]
+    exits = [st_ for _, st_ in _T(f, prog, inline_private=True).analyse().returns if st_ is not None]
     forms = set()
     for st_ in exits:
         forms |= members(st_.get("s:date_dec") or "?")
